@@ -172,7 +172,7 @@ Theorem C11_refuted_plus_case :
 Proof. exact refuted_plus_case. Qed.
 Print Assumptions C11_refuted_plus_case.
 
-(* F17 - a selected unknown name is silently dropped when the same name came earlier without a
+(* finding C11-shadowed-star - a selected unknown name is silently dropped when the same name came earlier without a
    star: master a b, source "x *x" returns the master unchanged; "*x" and "*x x" are refused. *)
 Theorem C11_refuted_shadowed_star :
   exists m u s,
